@@ -385,21 +385,25 @@ let f _id vs =
     (* the property, on the implementation's results: every handle sees the ideal sequence of the
        script of its underlying iterator *)
     let handles = Array.of_list (!d).ds_handles in
+    (* a bypass handle is the inner reader's own iterator: compared with the model only *)
     let script_of h = match handles.(h) with
-      | HShared (i, _) -> List.assoc (`Inst (int_of_nat i)) created
-      | HBypass b -> List.assoc (`Byp (int_of_nat b)) created in
+      | HShared (i, _) -> Some (List.assoc (`Inst (int_of_nat i)) created)
+      | HBypass _ -> None in
     let pos = Hashtbl.create 8 and stopped = Hashtbl.create 8 in
     let prop = ref None in
+    let nh = ref 0 (* handles that exist so far *) in
     List.iteri (fun k (o, r) ->
         match o with
-        | DStop h -> Hashtbl.replace stopped (int_of_nat h) true
-        | DNext (h, false) when int_of_nat h < Array.length handles && !prop = None ->
+        | DOpen _ -> if fst r <> 0 then incr nh
+        | DStop h -> if int_of_nat h < !nh then Hashtbl.replace stopped (int_of_nat h) true
+        | DNext (h, false) when int_of_nat h < !nh && !prop = None && script_of (int_of_nat h) <> None ->
           let h = int_of_nat h in
+          let scr = Option.get (script_of h) in
           if Hashtbl.mem stopped h then begin
             if r <> er 0 then prop := Some (Printf.sprintf "op %d: Next on a stopped clone returned %d/%d" k (fst r) (snd r))
           end else begin
             let j = (try Hashtbl.find pos h with Not_found -> 0) in
-            let want = wire (ideal (script_of h) (nat_of_int j)) in
+            let want = wire (ideal scr (nat_of_int j)) in
             if r <> want then
               prop := Some (Printf.sprintf "op %d: handle %d read #%d returned %d/%d, the underlying sequence has %d/%d" k h j (fst r) (snd r) (fst want) (snd want))
             else if fst r <> 0 then Hashtbl.replace pos h (j + 1)
